@@ -9,12 +9,16 @@
   Conventions
   * a style string is an interned number; `0` is the empty string `""` (the only
     falsy style string), `1` is `"[transparent]"` (style of `Screen`'s default char).
-    `attrsOf : Nat → Attrs` models `_StyleStringToAttrsCache.__getitem__`
-    (user style + style transformation: a parameter).
+    `rawOf : Nat → Attrs` models `_StyleStringToAttrsCache.__getitem__`
+    (user style + style transformation: a parameter); the differ's decisions use these.
+    What a terminal DISPLAYS for `set_attributes(attrs, color_depth)` is `enc depth attrs`
+    (the escape-code encoder `_EscapeCodeCache[depth]` followed by the terminal's SGR
+    interpretation: colours are dropped at 1 bit, quantised at 4/8 bit — a parameter);
+    `Env.attrsOf style = enc depth (rawOf style)`.
   * a `Screen` row is the dense list of the cells at columns `0..`, missing
     dictionary keys being filled with the default char `(" ", "[transparent]")`.
     This is faithful as long as the default char is not counted by
-    `get_max_column_index`, i.e. `attrsOf 1` has no colour/underline/… (checked
+    `get_max_column_index`, i.e. `rawOf 1` has no colour/underline/… (checked
     by the harness on every case).
   * `Cell.width` is `Char.width` (= `get_cwidth(char)`, runtime `wcwidth`): data.
   * `width - 1` is never formed on naturals: `min(width-1, m) + 1` is modelled as
@@ -85,7 +89,8 @@ def zweAt : List (Nat × Nat × Text) → Nat → Nat → Option Text
 inductive Cmd
   | write (t : Text)
   | writeRaw (t : Text)
-  | setAttrs (a : Attrs)
+  /-- `set_attributes(a, depth)`; `shown` is what the terminal then displays (`enc depth a`) -/
+  | setAttrs (a : Attrs) (depth : Nat) (shown : Attrs)
   | resetAttrs
   | cursorUp (n : Nat)
   | cursorForward (n : Nat)
@@ -123,7 +128,15 @@ structure Env where
   w : Nat
   h : Nat
   fullScreen : Bool
-  attrsOf : Nat → Attrs
+  /-- `attrs_for_style_string[style]` -/
+  rawOf : Nat → Attrs
+  /-- `color_depth` (1, 4, 8, 24) -/
+  depth : Nat
+  /-- what a terminal displays for `set_attributes(attrs, depth)` -/
+  enc : Nat → Attrs → Attrs
+
+/-- the attributes a cell of this style is displayed with at the current colour depth -/
+def Env.attrsOf (e : Env) (style : Nat) : Attrs := e.enc e.depth (e.rawOf style)
 
 def crlf : Text := ['\r', '\n']
 
@@ -147,10 +160,11 @@ def needAttrs (attrsOf : Nat → Attrs) (last : Option Nat) (na : Attrs) : Bool 
   | some s => s == 0 || na != attrsOf s
 
 /-- nested `output_char(char)` -/
-def outputChar (attrsOf : Nat → Attrs) (last : Option Nat) (c : Cell) : List Cmd × Option Nat :=
+def outputChar (e : Env) (last : Option Nat) (c : Cell) : List Cmd × Option Nat :=
   if last = some c.style then ([.write c.txt], last)
   else
-    ((if needAttrs attrsOf last (attrsOf c.style) then [.setAttrs (attrsOf c.style)] else [])
+    ((if needAttrs e.rawOf last (e.rawOf c.style) then
+        [.setAttrs (e.rawOf c.style) e.depth (e.attrsOf c.style)] else [])
         ++ [.write c.txt],
      some c.style)
 
@@ -168,7 +182,7 @@ def maxCol (attrsOf : Nat → Attrs) (row : List Cell) : Nat :=
   trimLen (Cell.counted attrsOf) row - 1
 
 /-- `min(width - 1, get_max_column_index(row)) + 1` -/
-def lineLen (e : Env) (row : List Cell) : Nat := min e.w (maxCol e.attrsOf row + 1)
+def lineLen (e : Env) (row : List Cell) : Nat := min e.w (maxCol e.rawOf row + 1)
 
 structure Out where
   cmds : List Cmd
@@ -188,7 +202,7 @@ def colLoop (e : Env) (s : Screen) (y : Nat) (newRow prevRow : List Cell) (n : N
       if nc.txt ≠ oc.txt ∨ nc.style ≠ oc.style then
         let m := moveCursor e.w pos last ⟨c, y⟩
         let z := zweCmds s.zwe y c
-        let o := outputChar e.attrsOf m.2 nc
+        let o := outputChar e m.2 nc
         let r := colLoop e s y newRow prevRow n fuel (c + cw) ⟨c + cw, y⟩ o.2
         ⟨m.1 ++ (z ++ (o.1 ++ r.cmds)), r.pos, r.last⟩
       else colLoop e s y newRow prevRow n fuel (c + cw) pos last
@@ -262,8 +276,10 @@ structure RState where
   pos : Point
   /-- `_last_style` -/
   lastStyle : Option Nat
-  /-- `(_last_style_hash, _last_transformation_hash, _last_color_depth)` interned -/
+  /-- `(_last_style_hash, _last_transformation_hash)` interned -/
   styleKey : Option Nat
+  /-- `_last_color_depth` -/
+  lastDepth : Option Nat
   /-- `_last_cursor_shape` -/
   shape : Option Nat
   inAlt : Bool
@@ -273,7 +289,7 @@ structure RState where
 deriving Repr, Inhabited
 
 /-- `Renderer.reset(_scroll, leave_alternate_screen)`
-    (`_attrs_for_style`, the style hashes and `_cursor_key_mode_reset` survive a reset). -/
+    (`_attrs_for_style`, the style hashes, `_last_color_depth` and `_cursor_key_mode_reset` survive a reset). -/
 def RState.reset (r : RState) (scroll leaveAlt : Bool) : RState × List Cmd :=
   ({ r with pos := ⟨0, 0⟩, lastScreen := none, lastSize := none, lastStyle := none, shape := none,
             inAlt := if r.inAlt && leaveAlt then false else r.inAlt,
@@ -286,12 +302,13 @@ def RState.reset (r : RState) (scroll leaveAlt : Bool) : RState × List Cmd :=
 
 /-- state after `Renderer.__init__` (which calls `reset(_scroll=True)`) -/
 def RState.init : RState × List Cmd :=
-  RState.reset ⟨none, none, ⟨0, 0⟩, none, none, none, false, false, false, false⟩ true true
+  RState.reset ⟨none, none, ⟨0, 0⟩, none, none, none, none, false, false, false, false⟩ true true
 
 /-- the `previous_screen` argument of the differ: `_last_screen`, forgotten when the size changed
-    (`self._last_size != size`) or the style / transformation / colour depth changed -/
+    (`self._last_size != size`) or the style / style transformation (`key`) or the colour depth
+    (`app.color_depth != self._last_color_depth`) changed -/
 def RState.prevFor (r : RState) (e : Env) (key : Nat) : Option Screen :=
-  if r.styleKey != some key then none
+  if r.styleKey != some key || r.lastDepth != some e.depth then none
   else (if r.lastSize != some (e.h, e.w) then none else r.lastScreen)
 
 /-- `previous_width = self._last_size.columns if self._last_size else 0` -/
@@ -304,12 +321,12 @@ def RState.prevWidth (r : RState) : Nat :=
 def RState.rendered (r : RState) (e : Env) (s : Screen) (mouseWanted : Bool) (key shape : Nat)
     (d : Out) : RState :=
   { r with inAlt := r.inAlt || e.fullScreen, paste := true, ckm := true, mouse := mouseWanted,
-           styleKey := some key, pos := d.pos, lastStyle := d.last, lastScreen := some s,
+           styleKey := some key, lastDepth := some e.depth, pos := d.pos, lastStyle := d.last, lastScreen := some s,
            lastSize := some (e.h, e.w), shape := some shape }
 
 /-- `Renderer.render(app, layout, is_done)` where the layout produces screen `s`,
     `output.get_size()` is `(e.h, e.w)`, `mouseWanted = self.mouse_support()`, `key` the interned
-    (style hash, transformation hash, colour depth), `shape = app.cursor.get_cursor_shape(app)`
+    (style hash, transformation hash), `e.depth = app.color_depth`, `shape = app.cursor.get_cursor_shape(app)`
     (`0` = `_NEVER_CHANGE`, for which `Vt100_Output.set_cursor_shape` writes nothing). -/
 def RState.render (r : RState) (e : Env) (s : Screen) (isDone mouseWanted : Bool) (key shape : Nat) :
     RState × List Cmd :=
@@ -448,7 +465,7 @@ def Term.eraseFrom (t : Term) (down : Bool) : Term :=
 def execCmd (cw : Char → Nat) (t : Term) : Cmd → Term
   | .write s => s.foldl (Term.putChar cw) t
   | .writeRaw _ => t          -- zero-width escapes: assumed not to touch cells or cursor
-  | .setAttrs a => { t with sgr := a }
+  | .setAttrs _ _ shown => { t with sgr := shown }
   | .resetAttrs => { t with sgr := Attrs.dflt }
   | .cursorUp n => { t with row := t.row - n, oob := t.oob || decide (t.row < n) }
   | .cursorForward n => { t with col := min (t.col + n) (t.w - 1) }
